@@ -15,6 +15,9 @@ import DateutilVerif.Proofs.ParserGenStep
 import DateutilVerif.Proofs.ParserGenNaive
 import DateutilVerif.Proofs.ParserGenLoop
 import DateutilVerif.Proofs.ParserGenParse
+import DateutilVerif.Proofs.ParserGenTail
+import DateutilVerif.Proofs.ParserGenInit
+import DateutilVerif.Proofs.ParserGenTzinfo
 
 namespace ParserGen
 open PM Py
@@ -188,12 +191,21 @@ theorem gen_eq_model_parse_loop_partial (cls : Char → CClass) (info : Info) (f
       PM.parseLoop cls info fuzzy l.length l.length 0 0 { l := l } :=
   PGen.parseLoop_eq cls info fuzzy hc fuel { l := l } 0 (by simpa using hf)
 
+/-- `parser._recombine_skipped(tokens, skipped_idxs)`: the loop over `enumerate(sorted(skipped_idxs))` gluing neighbouring
+    skipped tokens — for every token list and every index list (any order, repeats, out of range) -/
+theorem gen_eq_model_recombine_skipped (info : Info) (tokens : List Token) (skipped : List Nat) :
+    Gen.P.recombineSkipped info tokens skipped = PM.recombineSkipped tokens skipped :=
+  PGen.recombineSkipped_eq info tokens skipped
+
+example : Gen.P.recombineSkipped_loop (Info.default false false 2026 2000) [0, 1, 2, 5]
+    [tk "foo", tk " ", tk "bar", tk " ", tk "19", tk "baz"] [0, 1, 2, 5] 0 [] = .ok [tk "foo bar", tk "baz"] := by decide
+
 /-- the whole of `parser._parse(timestr, dayfirst, yearfirst, fuzzy, fuzzy_with_tokens)` as written now: the flag defaults,
     lexing, the token loop, `resolve_ymd` and the result fields, the `except (IndexError, ValueError, InvalidOperation)`
     boundary, `info.validate(res)` (whose AST is checked at translation time to return True only), the fuzzy token
     recombination — equal to the model's `parseTokens` on the lexed text, for every text and flag combination, given at
-    least as much fuel as there are tokens.  Named primitives on both sides: the lexer (`_timelex.split` ↦ `PM.lex`) and
-    `_recombine_skipped` (↦ `PM.recombineSkipped`); same `_century ≥ 100` hypothesis as `validate`. -/
+    least as much fuel as there are tokens.  One named primitive on both sides: the lexer (`_timelex.split` ↦ `PM.lex`);
+    `_recombine_skipped` is the translated one; same `_century ≥ 100` hypothesis as `validate`. -/
 theorem gen_eq_model_parse_partial (cls : Char → CClass) (info : Info) (fuel : Nat) (timestr : List Char)
     (dayfirst yearfirst : Option Bool) (fuzzy fuzzyWithTokens : Bool) (hc : 100 ≤ info.century)
     (hf : (PM.lex cls timestr).length ≤ fuel) :
@@ -201,6 +213,20 @@ theorem gen_eq_model_parse_partial (cls : Char → CClass) (info : Info) (fuel :
       PM.parseTokens cls info { dayfirst := dayfirst, yearfirst := yearfirst, fuzzy := fuzzy,
                                 fuzzyWithTokens := fuzzyWithTokens } (PM.lex cls timestr) :=
   PGen.parse_eq cls info fuel timestr dayfirst yearfirst fuzzy fuzzyWithTokens hc hf
+
+/-- `parser.parse(timestr, default, ignoretz, tzinfos, **kwargs)` from the `_parse` call to the return, as written now (with the
+    two repairs ce40246 / fef6cad in place): "Unknown string format" / "String does not contain a date" ParserErrors,
+    `_build_naive` and `_build_tzaware` each inside `except ValueError → ParserError`, `ret.replace(tzinfo=None)` for
+    `ignoretz`, the `fuzzy_with_tokens` return — equal to the model's `parseA` (any default: its tzinfo kept / dropped as
+    `FinalTz` says).  `_build_tzaware` itself is a named stand-in for the hand model's cascade (not translated);
+    same `_century ≥ 100` and fuel hypotheses as `_parse`. -/
+theorem gen_eq_model_parse_tail_partial (cls : Char → CClass) (info : Info) (fuel : Nat) (tznames : List Token)
+    (timestr : List Char) (dflt : DT) (ignoretz : Bool) (tzi : TzInfos) (dayfirst yearfirst : Option Bool)
+    (fuzzy fuzzyWithTokens : Bool) (hc : 100 ≤ info.century) (hf : (PM.lex cls timestr).length ≤ fuel) :
+    Gen.P.parseTail fuel cls tznames info timestr dflt ignoretz tzi dayfirst yearfirst fuzzy fuzzyWithTokens =
+      PM.parseA cls info { dayfirst := dayfirst, yearfirst := yearfirst, fuzzy := fuzzy, fuzzyWithTokens := fuzzyWithTokens,
+                           ignoretz := ignoretz } tznames tzi dflt timestr :=
+  PGen.parseTail_eq cls info fuel tznames timestr dflt ignoretz tzi dayfirst yearfirst fuzzy fuzzyWithTokens hc hf
 
 -- the hypotheses are satisfiable (the stock parserinfo of any year from 100 on; fuel = number of tokens)
 example : (100 : Int) ≤ (Info.default false false 2026 2000).century ∧ ([tk "10", tk " ", tk "pm"] : List Token).length ≤ 3 := by
@@ -233,5 +259,67 @@ example : PM.findHmsIdx (Info.default false false 2026 2000) 2 [tk "h", tk "04"]
 example : PM.findHmsIdx (Info.default false false 2026 2000) 1 [tk "h", tk "04"] true = some (0, 0) := by decide
 example : Gen.P.assignTzname (Info.default false false 2026 2000) { n0 := some (tk "EDT"), n1 := some (tk "EST") }
     (some (tk "EST")) = .ok { n0 := some (tk "EDT"), n1 := some (tk "EST"), fold := 1 } := by decide
+
+/-! ### `_build_tzinfo` -/
+
+/-- `parser._build_tzinfo(tzinfos, tzname, tzoffset)` as written now, for a `tzinfos` that is a callable or a mapping (the only
+    way `_build_tzaware` calls it): callable → its answer, else `.get(tzname)`; then tzinfo-instance-or-None kept / text →
+    `tz.tzstr` (may raise) / int → `tz.tzoffset(tzname, n)` (OverflowError beyond timedelta) / anything else TypeError.
+    The zone descriptor of `naive.replace(tzinfo=<that object>)`, or the exception, is the model's `PM.buildTzinfo`.
+    Named primitives: the user's `tzinfos` (`PPy.tziCall/tziGet`), the isinstance tests, the two constructors. -/
+theorem gen_eq_model_build_tzinfo (info : Info) (tzi : TzInfos) (name : Option Token) (off : Option Int) (h : tzi ≠ .absent) :
+    (Gen.P.buildTzinfo info tzi name off).map (PPy.descrOf name) = PM.buildTzinfo tzi name off :=
+  PGen.buildTzinfo_eq info tzi name off h
+
+example : Gen.P.buildTzinfo (Info.default false false 2026 2000) (.mapping [(some (tk "BRST"), .int (-10800))]) (some (tk "BRST")) none
+    = .ok (.fixed (some (tk "BRST")) (-10800)) := by decide
+
+/-! ### `parserinfo.__init__`: where `_century ≥ 100` comes from -/
+
+/-- `parserinfo.__init__(dayfirst, yearfirst)` as written now, for ANY class tables (a subclass's word lists) and current year
+    `now_year = time.localtime().tm_year`: `_year = now_year`, `_century = now_year // 100 * 100`, the flags, the converted
+    tables (`_convert` is the named primitive `PM.convertGroups`) -/
+theorem gen_eq_model_info_init (t : PPy.InfoTables) (y : Int) (df yf : Bool) :
+    ∃ I, Gen.P.info_init t y df yf = .ok I ∧ I.year = y ∧ I.century = y / 100 * 100 ∧ I.dayfirst = df ∧ I.yearfirst = yf ∧
+      I.weekdays = PM.convertGroups t.WEEKDAYS ∧ I.months = PM.convertGroups t.MONTHS ∧ I.hms = PM.convertGroups t.HMS ∧
+      I.ampm = PM.convertGroups t.AMPM ∧ I.tzoffsets = t.TZOFFSET := PGen.info_init_ok t y df yf
+
+/-- for the stock class it is the model's `Info.default` -/
+theorem gen_eq_model_info_init_stock (y : Int) (df yf : Bool) :
+    Gen.P.info_init PPy.stockTables y df yf = .ok (Info.default df yf y (y / 100 * 100)) := PGen.info_init_stock y df yf
+
+/-- the hypothesis of the `…_partial` obligations, discharged: an instance built by `__init__` in any year from 100 on has
+    `_century ≥ 100` (what remains assumed is that the clock says a year ≥ 100 and that nobody overwrites `_century`) -/
+theorem century_ge_100_of_init (t : PPy.InfoTables) (y : Int) (df yf : Bool) (I : Info)
+    (h : Gen.P.info_init t y df yf = .ok I) (hy : 100 ≤ y) : 100 ≤ I.century := PGen.info_init_century t y df yf I h hy
+
+/-- `parse()` (from the `_parse` call on) for an instance built by `__init__`: no hypothesis on `_century` left -/
+theorem gen_eq_model_parse_tail_of_init (cls : Char → CClass) (t : PPy.InfoTables) (y : Int) (df0 yf0 : Bool) (info : Info)
+    (hi : Gen.P.info_init t y df0 yf0 = .ok info) (hy : 100 ≤ y) (fuel : Nat) (tznames : List Token)
+    (timestr : List Char) (dflt : DT) (ignoretz : Bool) (tzi : TzInfos) (dayfirst yearfirst : Option Bool)
+    (fuzzy fuzzyWithTokens : Bool) (hf : (PM.lex cls timestr).length ≤ fuel) :
+    Gen.P.parseTail fuel cls tznames info timestr dflt ignoretz tzi dayfirst yearfirst fuzzy fuzzyWithTokens =
+      PM.parseA cls info { dayfirst := dayfirst, yearfirst := yearfirst, fuzzy := fuzzy, fuzzyWithTokens := fuzzyWithTokens,
+                           ignoretz := ignoretz } tznames tzi dflt timestr :=
+  gen_eq_model_parse_tail_partial cls info fuel tznames timestr dflt ignoretz tzi dayfirst yearfirst fuzzy fuzzyWithTokens
+    (century_ge_100_of_init t y df0 yf0 info hi hy) hf
+
+/-- likewise `validate`, the loop body, the loop and `_parse` -/
+theorem gen_eq_model_info_validate_of_init (t : PPy.InfoTables) (y : Int) (df0 yf0 : Bool) (info : Info)
+    (hi : Gen.P.info_init t y df0 yf0 = .ok info) (hy : 100 ≤ y) (res : Res) :
+    Gen.P.info_validate info res = PM.validate info res :=
+  gen_eq_model_info_validate_partial info res (century_ge_100_of_init t y df0 yf0 info hi hy)
+
+theorem gen_eq_model_parse_of_init (cls : Char → CClass) (t : PPy.InfoTables) (y : Int) (df0 yf0 : Bool) (info : Info)
+    (hi : Gen.P.info_init t y df0 yf0 = .ok info) (hy : 100 ≤ y) (fuel : Nat) (timestr : List Char)
+    (dayfirst yearfirst : Option Bool) (fuzzy fuzzyWithTokens : Bool) (hf : (PM.lex cls timestr).length ≤ fuel) :
+    Gen.P.parse fuel cls info timestr dayfirst yearfirst fuzzy fuzzyWithTokens =
+      PM.parseTokens cls info { dayfirst := dayfirst, yearfirst := yearfirst, fuzzy := fuzzy,
+                                fuzzyWithTokens := fuzzyWithTokens } (PM.lex cls timestr) :=
+  gen_eq_model_parse_partial cls info fuel timestr dayfirst yearfirst fuzzy fuzzyWithTokens
+    (century_ge_100_of_init t y df0 yf0 info hi hy) hf
+
+example : ∃ I, Gen.P.info_init PPy.stockTables 2026 false false = .ok I ∧ (100 : Int) ≤ I.century :=
+  ⟨_, gen_eq_model_info_init_stock 2026 false false, by decide⟩
 
 end ParserGen
